@@ -66,6 +66,23 @@ P.update({
             'k != 0: after every operation each monitor equals the harness shadow list record by record; operands are never altered. In-memory half only.',
             'DESIGN.md#c20', 'FILE HALF NOT CLAIMED (LoggingMonitor / munge round trips): decimal float formatting has no solver encoding.'),
 })
+P.update({
+    'C16': (True, 'model_checking',
+            'Every constraint decorator is applied to the identity and called on a solver-quantified vector (list and ndarray), for enumerated index selections '
+            '(None, single, negative, out of range): selected entries land in the target set (nearest member / nearest integer / given digits / order / pinned value '
+            '/ tracked partner / interval), unselected and already-conforming entries are unchanged, g(g(x)) = g(x); the statistics decorators reach their target up to '
+            'the documented almostEqual tolerance; tools.masked/partial/synchronized/clipped/suppressed rewrite exactly the addressed entries.', 'DESIGN.md#c16', ''),
+    'C18': (True, 'model_checking',
+            'impose_mean/variance/std/spread/moment, normalize/impose_sum/impose_weight_norm, impose_support/unweighted/collapse, median/tmean variants and the '
+            'definitions (mean, variance, moments, expectation, ess_*, L-p norms, distances) are executed on solver-quantified samples and targets with enumerated '
+            'exact-rational weight vectors; each path is closed in QF_NRA (polynomial identities by exact normalisation) against the textbook weighted formulas: '
+            'target hit, promised quantities preserved.', 'DESIGN.md#c18', ''),
+    'C19': (True, 'model_checking',
+            'For enumerated shapes (<=3 factors x <=3 points) with solver-quantified weights, positions and values: flatten/load/unflatten, compose/decompose, '
+            '_pack/_unpack, split_param are mutual inverses entry by entry; update() changes exactly the addressed factors; product weights are products of factor '
+            'weights, positions the Cartesian product in the documented order; expect/expect_var/pof/support/mean_value/pof_value equal explicit sums over the weighted '
+            'points with uninterpreted integrands; center_mass/range/var setters achieve their value.', 'DESIGN.md#c19', ''),
+})
 
 NOT_YET = 'check not built yet in this round (planned: DESIGN.md section 4)'
 
